@@ -111,6 +111,7 @@ def run_jobs(jobs, n_workers=None, timeout=600, hashseed='0', progress=None,
 
   def loop(slot):
     workers = {}
+    hist = {}   # x64 -> indices of the jobs the live worker process has run
     while True:
       try:
         i, job = q.get_nowait()
@@ -124,7 +125,14 @@ def run_jobs(jobs, n_workers=None, timeout=600, hashseed='0', progress=None,
       try:
         if w is None:
           w = workers[x64] = Worker(x64, slot, hashseed)
+          hist[x64] = []
+        prefix = list(hist[x64])
         rep = w.run(job, timeout)
+        hist[x64].append(i)
+        if isinstance(rep, dict):
+          # which jobs ran earlier in the same interpreter: part of the
+          # schedule if the library keeps process-global state
+          rep['_prefix'] = prefix
       except Exception as e:  # pylint: disable=broad-except
         rep = {'id': job['id'], 'ok': False, 'kind': 'harness',
                'exc': type(e).__name__, 'msg': str(e)}
@@ -141,6 +149,7 @@ def run_jobs(jobs, n_workers=None, timeout=600, hashseed='0', progress=None,
           except OSError:
             pass
           workers.pop(x64, None)
+          hist.pop(x64, None)
         rep = {'id': job['id'], 'ok': False, 'kind': kind, 'tb': tail}
       results[i] = rep
       with lock:
@@ -157,3 +166,47 @@ def run_jobs(jobs, n_workers=None, timeout=600, hashseed='0', progress=None,
   for t in threads:
     t.join()
   return results
+
+
+def run_sequences(seqs, n_workers=None, timeout=600, hashseed='0'):
+  """Each element of `seqs` is a list of jobs that is executed, in order, in
+  ONE fresh interpreter (all jobs of a sequence must agree on x64). Returns,
+  per sequence, the list of replies (None entries after a dead worker)."""
+  n_workers = n_workers or int(os.environ.get('VERIF_JOBS', '16'))
+  n_workers = max(1, min(n_workers, len(seqs)))
+  q = queue.Queue()
+  for i, sq in enumerate(seqs):
+    q.put((i, sq))
+  out = [None] * len(seqs)
+
+  def loop(slot):
+    while True:
+      try:
+        i, sq = q.get_nowait()
+      except queue.Empty:
+        return
+      reps = []
+      w = None
+      try:
+        w = Worker(bool(sq[0]['plan'].get('x64', True)), f's{slot}', hashseed)
+        for job in sq:
+          r = w.run(job, timeout)
+          reps.append(r)
+          if r is None:
+            break
+      except Exception as e:  # pylint: disable=broad-except
+        reps.append({'id': None, 'ok': False, 'kind': 'harness',
+                     'exc': type(e).__name__, 'msg': str(e)})
+      finally:
+        if w is not None:
+          (w.close if reps and reps[-1] is not None else w.kill)()
+      reps += [None] * (len(sq) - len(reps))
+      out[i] = reps
+
+  threads = [threading.Thread(target=loop, args=(s,), daemon=True)
+             for s in range(n_workers)]
+  for t in threads:
+    t.start()
+  for t in threads:
+    t.join()
+  return out
